@@ -31,7 +31,8 @@ static UNS_UNSETTLED: std::sync::atomic::AtomicU64 = std::sync::atomic::AtomicU6
 static BR_NONMONO: std::sync::atomic::AtomicU64 = std::sync::atomic::AtomicU64::new(0);
 static WIDEN_SORTED: std::sync::atomic::AtomicU64 = std::sync::atomic::AtomicU64::new(0);
 
-fn wq(pts: &[u64], ws: &[f64], n: usize, cap: usize) -> Result<(Vec<u64>, usize), usize> {
+pub fn wq(pts: &[u64], ws: &[f64], n: usize, cap: usize) -> Result<(Vec<u64>, usize), usize> {
+    let fixed = std::env::var("WQ_FIX").is_ok();   // candidate fix: epsilon scaled by the total weight
     let mn = *pts.iter().min().unwrap();
     let mx = *pts.iter().max().unwrap();
     let mut s: Vec<Split> = (1..n).map(|i| Split { pos: mn + (mx - mn) / n as u64 * i as u64, mn, mx, st: false }).collect();
@@ -53,6 +54,7 @@ fn wq(pts: &[u64], ws: &[f64], n: usize, cap: usize) -> Result<(Vec<u64>, usize)
         let mut pw = vec![0.0f64; n];
         for (p, w) in pts.iter().zip(ws) { pw[bsearch_pc(&pos, *p)] += *w; }
         let total: f64 = pw.iter().cloned().sum();
+        let eps = if fixed { f64::EPSILON * f64::min(1.0, total) } else { f64::EPSILON };
         let mut acc = 0.0;
         let pre: Vec<f64> = pw.iter().map(|x| { acc += *x; acc }).collect();
         let mut ns = s.clone();
@@ -69,7 +71,7 @@ fn wq(pts: &[u64], ws: &[f64], n: usize, cap: usize) -> Result<(Vec<u64>, usize)
                 let mut a = left;
                 for q in p + 1..n - 1 {
                     a += pw[q];
-                    if (a - exp).abs() <= f64::EPSILON { sp.mn = pos[q]; sp.mx = pos[q]; break; }
+                    if (a - exp).abs() <= eps { sp.mn = pos[q]; sp.mx = pos[q]; break; }
                     else if exp < a { if pos[q] < sp.mx { sp.mx = pos[q]; } break; }
                     else if a < exp { sp.mn = pos[q]; }
                 }
@@ -78,7 +80,7 @@ fn wq(pts: &[u64], ws: &[f64], n: usize, cap: usize) -> Result<(Vec<u64>, usize)
                 let mut a = left;
                 for q in (0..p).rev() {
                     a -= pw[q + 1];
-                    if (a - exp).abs() <= f64::EPSILON { sp.mn = pos[q]; sp.mx = pos[q]; break; }
+                    if (a - exp).abs() <= eps { sp.mn = pos[q]; sp.mx = pos[q]; break; }
                     else if a < exp { if sp.mn < pos[q] { sp.mn = pos[q]; } break; }
                     else if exp < a { sp.mx = pos[q]; }
                 }
@@ -105,10 +107,10 @@ fn wq(pts: &[u64], ws: &[f64], n: usize, cap: usize) -> Result<(Vec<u64>, usize)
     Ok((s.iter().map(|x| x.pos).collect(), rounds))
 }
 
-struct Rng(u64);
+pub struct Rng(pub u64);
 impl Rng {
-    fn next(&mut self) -> u64 { let mut x = self.0; x ^= x >> 12; x ^= x << 25; x ^= x >> 27; self.0 = x; x.wrapping_mul(0x2545_F491_4F6C_DD1D) }
-    fn below(&mut self, n: u64) -> u64 { self.next() % n }
+    pub fn next(&mut self) -> u64 { let mut x = self.0; x ^= x >> 12; x ^= x << 25; x ^= x >> 27; self.0 = x; x.wrapping_mul(0x2545_F491_4F6C_DD1D) }
+    pub fn below(&mut self, n: u64) -> u64 { self.next() % n }
 }
 
 fn gen(r: &mut Rng, maxm: usize, maxn: usize) -> (Vec<u64>, Vec<f64>, usize) {
@@ -116,8 +118,15 @@ fn gen(r: &mut Rng, maxm: usize, maxn: usize) -> (Vec<u64>, Vec<f64>, usize) {
     let alpha: u64 = [4u64, 8, 16, 16, 32, 64, 256, 1 << 16][r.below(8) as usize];
     let mut pts: Vec<u64> = (0..m).map(|_| r.below(alpha)).collect();
     if r.below(3) == 0 { let i = r.below(m as u64) as usize; pts[i] = alpha - 1; let j = r.below(m as u64) as usize; pts[j] = 0; }
-    let wk = r.below(6);
+    let absorb = std::env::var("WQ_ABSORB").is_ok();
+    let wk = if absorb { 6 + r.below(5) } else { r.below(6) };
     let ws: Vec<f64> = (0..m).map(|_| match wk {
+        // inexact sums: absorption (huge + tiny), tenths, wide random exponents
+        6 => if r.below(3) == 0 { 9007199254740992.0 } else { 1.0 + r.below(3) as f64 },
+        7 => if r.below(4) == 0 { 1.0e16 } else { [1.0, 2.0, 3.0, 0.0][r.below(4) as usize] },
+        8 => (1 + r.below(30)) as f64 * 0.1,
+        9 => ((1 + r.below(1000)) as f64) * (2.0f64).powi(r.below(120) as i32 - 60),
+        10 => 1.0e-17 * (1 + r.below(60)) as f64,
         0 => 1.0,
         1 => r.below(4) as f64,
         2 => (1 + r.below(9)) as f64,
@@ -126,6 +135,8 @@ fn gen(r: &mut Rng, maxm: usize, maxn: usize) -> (Vec<u64>, Vec<f64>, usize) {
         _ => (1 + r.below(16)) as f64 / 4.0,
     }).collect();
     let n = 3 + r.below(maxn as u64 - 2) as usize;
+    let scale: f64 = std::env::var("WQ_SCALE").ok().and_then(|x| x.parse().ok()).unwrap_or(1.0);
+    let ws: Vec<f64> = ws.iter().map(|w| w * scale).collect();
     (pts, ws, n)
 }
 
@@ -154,7 +165,7 @@ fn main() {
             let cnt: u64 = a[3].parse().unwrap();
             let maxm: usize = a[4].parse().unwrap();
             let maxn: usize = a[5].parse().unwrap();
-            let threads = 12;
+            let threads = 6;
             let hs: Vec<_> = (0..threads).map(|t| std::thread::spawn(move || {
                 let mut r = Rng((seed * 1000 + t as u64).wrapping_mul(0x9E3779B97F4A7C15) | 1);
                 let mut maxr = 0usize; let mut worst = None;
@@ -173,6 +184,45 @@ fn main() {
             use std::sync::atomic::Ordering::Relaxed;
             println!("bracket updates {}: widened {} (of which with sorted positions {}), not nested in the old bracket {}, inverted (min>max) {}; rounds with unsorted positions {}(unsettled splits out of order among themselves {}, their brackets not monotone {}); not nested with positive width {}; moving updates whose width did not shrink {}",
                 UPDATES.load(Relaxed), WIDEN.load(Relaxed), WIDEN_SORTED.load(Relaxed), NOTNEST.load(Relaxed), INVERT.load(Relaxed), UNSORTED_ROUNDS.load(Relaxed), UNS_UNSETTLED.load(Relaxed), BR_NONMONO.load(Relaxed), NOTNEST_POSW.load(Relaxed), NOSHRINK_MOVE.load(Relaxed));
+        }
+        // hill-climbing on the number of rounds (weights from an absorbing alphabet)
+        "climb" => {
+            let seed: u64 = a[2].parse().unwrap();
+            let restarts: u64 = a[3].parse().unwrap();
+            let iters: u64 = a[4].parse().unwrap();
+            let wv: Vec<f64> = vec![0.0, 1.0, 1.0, 2.0, 3.0, 0.5, 0.1, 0.3, 9007199254740992.0, 4503599627370496.0, 1.0e16, 1.0e17, 7.0e15, 1.0e-3];
+            let hs: Vec<_> = (0..6u64).map(|t| { let wv = wv.clone(); std::thread::spawn(move || {
+                let mut r = Rng((seed * 77 + t).wrapping_mul(0x9E3779B97F4A7C15) | 1);
+                let mut best = 0usize;
+                for _ in 0..restarts {
+                    let m = 3 + r.below(12) as usize;
+                    let bits = [4u32, 6, 8, 12, 20, 40, 63][r.below(7) as usize];
+                    let mut pts: Vec<u64> = (0..m).map(|_| r.next() >> (64 - bits)).collect();
+                    let mut ws: Vec<f64> = (0..m).map(|_| wv[r.below(wv.len() as u64) as usize]).collect();
+                    let mut n = 3 + r.below(m as u64) as usize;
+                    let mut f = match wq(&pts, &ws, n, 20000) { Ok((_, k)) => k, Err(k) => { println!("CYCLE at round {}: pts={:?} ws={:?} n={}", k, pts, ws, n); std::process::exit(3); } };
+                    for _ in 0..iters {
+                        let (mut p2, mut w2, mut n2) = (pts.clone(), ws.clone(), n);
+                        let i = r.below(p2.len() as u64) as usize;
+                        match r.below(8) {
+                            0 | 1 => p2[i] = r.next() >> (64 - bits),
+                            2 => { let j = r.below(p2.len() as u64) as usize; p2[i] = p2[j].wrapping_add(r.below(5)).wrapping_sub(2) & ((1u64 << bits) - 1).max(1); }
+                            3 | 4 => w2[i] = wv[r.below(wv.len() as u64) as usize],
+                            5 => n2 = (n2 as i64 + [-1i64, 1][r.below(2) as usize]).clamp(3, p2.len() as i64 + 2) as usize,
+                            6 => if p2.len() < 20 { p2.push(r.next() >> (64 - bits)); w2.push(wv[r.below(wv.len() as u64) as usize]); },
+                            _ => if p2.len() > 3 { p2.remove(i); w2.remove(i); n2 = n2.min(p2.len() + 2); },
+                        }
+                        match wq(&p2, &w2, n2, 20000) {
+                            Ok((_, k)) => if k >= f { pts = p2; ws = w2; n = n2; f = k; },
+                            Err(k) => { println!("CYCLE at round {}: pts={:?} ws={:?} n={}", k, p2, w2, n2); std::process::exit(3); }
+                        }
+                    }
+                    if f > best { best = f; println!("thread {} best {} rounds: pts={:?} ws={:?} n={}", t, f, pts, ws, n); }
+                }
+                best
+            })}).collect();
+            let mut b = 0; for h in hs { b = b.max(h.join().unwrap()); }
+            println!("climb: max rounds {}", b);
         }
         // exhaustive: m points with indices in 0..range (sorted multisets), weights in a small set, n in 3..=maxn
         "ex" => {
